@@ -194,6 +194,7 @@ func (s *setupWorker) setup(ctx context.Context, m transport.Metadata) error {
 			return err
 		}
 		L(ctx).Debug("deleted old session metadata")
+		verifPoint("setup.afterDeleteOld", session.ID())
 	}
 	err = s.state.SessionMetadatas().Create(session.ID(), session.ClientID(), time.Now().Unix(), session.LWT(), session.MountPoint())
 	if err != nil {
@@ -229,6 +230,7 @@ func (s *manager) shutdownSession(ctx context.Context, session *sessions.Session
 		s.state.Subscriptions().Delete(session.ID(), topics[idx])
 	}
 	metadata, err := s.state.SessionMetadatas().ByClientID(session.ClientID())
+	verifPoint("shutdown.afterLookup", session.ID())
 	if err == nil {
 		if metadata.SessionID != session.ID() || session.Disconnected {
 			// Session has reconnected on another peer.
